@@ -291,7 +291,16 @@ def gen(repo):
         emit(f"  | S_{v} => {i}%nat")
     emit("  end.")
     ff = body_of(sub_impl, r"fn from_frame\(mut r: Frame\) -> (?:Option|Vec)<Subsystem>\s*\{", "Subsystem::from_frame")
-    mm = re.search(r"match &\*raw\s*\{(.*?)_\s*=>\s*Subsystem::Other\(raw\.into\(\)\),?\s*\}", ff, re.S)
+    if re.search(r"fn from_name\(raw: String\) -> Subsystem", sub_impl):
+        # repaired shape: from_frame loops over every `changed` field and maps each through from_name
+        if norm(ff) != norm("""let mut changed = Vec::new(); while let Some(raw) = r.get("changed") { changed.push(Self::from_name(raw)); } changed"""):
+            raise TranslatorError("Subsystem::from_frame: loop over the changed fields has changed shape")
+        fn_body = body_of(sub_impl, r"fn from_name\(raw: String\) -> Subsystem\s*\{", "Subsystem::from_name")
+        mm = re.fullmatch(r"\s*match &\*raw\s*\{(.*?)_\s*=>\s*Subsystem::Other\(raw\.into\(\)\),?\s*\}\s*", fn_body, re.S)
+        all_changed = True
+    else:
+        mm = re.search(r"r\.get\(\"changed\"\)\.map\(\|raw\| match &\*raw\s*\{(.*?)_\s*=>\s*Subsystem::Other\(raw\.into\(\)\),?\s*\}\)", ff, re.S)
+        all_changed = False
     if not mm:
         raise TranslatorError("Subsystem::from_frame: name match has changed shape")
     frows = lit_to_variant_arms(mm.group(1), "Subsystem::from_frame")
@@ -301,13 +310,16 @@ def gen(repo):
     emit("Definition sub_parse_table : list (bytes * subv) := [")
     emit(";\n".join(f"  ({coq_bytes(p)}, S_{v})" for p, v in frows))
     emit("].")
-    key = re.search(r'r\.get\("((?:\\.|[^"\\])*)"\)', ff) or re.search(r'"((?:\\.|[^"\\])*)"', ff)
+    key = re.search(r'r\.get\("((?:\\.|[^"\\])*)"\)', ff)
     if not key:
         raise TranslatorError("Subsystem::from_frame: field name not found")
     emit(f"Definition sub_field_key : bytes := {coq_bytes(rust_str(key.group(1)))}.")
-    # which shape: first `changed` only, or every `changed` field
-    all_changed = bool(re.search(r"while let Some\(raw\) = r\.get\(", ff)) or "Vec<Subsystem>" in sub_impl
     emit(f"Definition sub_all_changed_fields : bool := {'true' if all_changed else 'false'}.")
+    # both call sites in the run loop must iterate over the result (one event per element)
+    cc0 = strip_comments(read(repo, "mpd_client/src/client/connection.rs"))
+    n_for = len(re.findall(r"for subsystem in Subsystem::from_frame\(f\)", cc0))
+    n_if = len(re.findall(r"if let Some\(subsystem\) = Subsystem::from_frame\(f\)", cc0))
+    emit(f"Definition sub_event_sites_iterate : bool := {'true' if (n_for == 2 and n_if == 0) else 'false'}.")
     pin("sub_eq", cm, r"impl PartialEq for Subsystem\s*\{", "fn eq(&self, other: &Self) -> bool { self.as_str() == other.as_str() }")
     pin("sub_hash", cm, r"impl Hash for Subsystem\s*\{", "fn hash<H: Hasher>(&self, state: &mut H) { self.as_str().hash(state); }")
     m = re.search(r"error\.code == (\d+)", cm)
